@@ -1,6 +1,7 @@
 //! Seeded workload: draws the swarm configuration of a run and then, step by step, the next
-//! explicit `Step` from the *model* state only (never from what the real code did), so that a
-//! seed is one exactly repeatable program also on a tree where the property is broken.
+//! explicit `Step` from the model state. The model follows the real code in two places only
+//! (whether a failed batch kept its good prefix; how many items a SELECT source holds), so a seed
+//! is one exactly repeatable program on a given tree.
 
 use crate::exec::Sim;
 use crate::gen::*;
@@ -67,7 +68,9 @@ pub fn draw_cfg(r: &mut Rng, prop: Prop) -> Cfg {
                 families,
                 max_handles: r.range(1, 5),
                 n_steps: r.range(3, 60),
-                value_op_pct: r.range(0, 20) as u32,
+                // no take / clone / clear steps in a C10 run: those are C15's subject (statements are
+                // still composed into INSERTs by clone / take / move of live SELECT handles)
+                value_op_pct: 0,
                 observe_pct: r.range(5, 25) as u32,
                 fault_pct: if r.pct(30) { 0 } else { r.range(5, 50) as u32 },
                 handle_sub_pct: r.range(0, 70) as u32,
